@@ -73,6 +73,7 @@ class LauncherRegistry:
         self.connectors_schema = DictConfig({})
         self.tokens_schema = DictConfig({})
         self.find_launcher_fn = None
+        self.launchers_py: Optional[Path] = None
 
         # Use entry points for connectors and launchers
         for entry_point in pkg_resources.iter_entry_points("experimaestro.connectors"):
@@ -93,6 +94,7 @@ class LauncherRegistry:
                 module = util.module_from_spec(spec)
                 spec.loader.exec_module(module)
 
+            self.launchers_py = launchers_py
             self.find_launcher_fn = getattr(module, "find_launcher", None)
             if self.find_launcher_fn is None:
                 logger.warning(
@@ -139,14 +141,8 @@ class LauncherRegistry:
             tags: Restrict the launchers to those containing one of the specified tags
         """
 
-        if self.find_launcher_fn is None:
-            logger.info("No launchers.yaml file: using local host ")
-            from experimaestro.launchers.direct import DirectLauncher
-            from experimaestro.connectors.local import LocalConnector
-
-            return DirectLauncher(LocalConnector.instance())
-
-        # Parse specs
+        # Parse specs (a text that is not a specification is an error, whatever
+        # the configuration)
         from .parser import parse
 
         specs = []
@@ -158,6 +154,23 @@ class LauncherRegistry:
                 specs.extend(spec.requirements)
             else:
                 specs.append(spec)
+
+        if self.find_launcher_fn is None:
+            if self.launchers_py is not None:
+                # The hosts are described but cannot be asked: no launcher,
+                # rather than the local host for any requirement
+                logger.error(
+                    "No find_launcher() function in %s: no launcher for %s",
+                    self.launchers_py,
+                    specs,
+                )
+                return None
+
+            logger.info("No launchers.py file: using local host ")
+            from experimaestro.launchers.direct import DirectLauncher
+            from experimaestro.connectors.local import LocalConnector
+
+            return DirectLauncher(LocalConnector.instance())
 
         # Use launcher function
         from experimaestro.launchers import Launcher
